@@ -158,13 +158,16 @@ CLAIMS = {
                 "C08_placed_all (each supplied component, cleaned and zero-padded to its field width, is the BBAN substring at the "
                 "published position and has exactly that width), C08_placed_combined_all (a bank code of combined width is split across "
                 "both fields; no separate branch code then), C08_kept (padding only prepends), C08_long_bank/_branch/_account (the "
-                "over-long component's own error class), C08_unknown_country, C08_no_positions; by list surgery over the placement "
+                "over-long component's own error class), C08_unknown_country, C08_no_positions, C08_library_errors_only (generate never "
+                "raises an exception from outside the library's family: the structure check leaves every component value of its "
+                "positions' classes, and each national computation is total on such input - Proofs/ComputeTotal.v, GenerateTotal.v); "
+                "by list surgery over the placement "
                 "loop (Proofs/PlaceFacts.v) and the shape of what each check-digit algorithm returns (Proofs/ComputeShape.v), under "
                 "data obligations on the regenerated table (layout, algorithm widths). The model follows the code line by line and is "
                 "tied by correspondence on exact/short/long/combined/odd-character components for every country; the property is "
                 "also checked on the implementation by a table-driven oracle. Found and fixed: silently dropped branch code "
                 "(fa6d1f2), out-of-class characters escaping as ValueError/KeyError (4d4423d).",
-        "note": COMMON_NOTE + " The C08 stream oracle (tools/impl_runner.py f_spec_generate) is Python written against Gen/facts.json; the theorems are about the Coq model. That generate raises only library errors is proved up to the check-digit computation (PlaceFacts.fc_no_crash: no foreign exception unless the country's compute raises one) and otherwise covered by the streams (partial there).",
+        "note": COMMON_NOTE + " The C08 stream oracle (tools/impl_runner.py f_spec_generate) is Python written against Gen/facts.json; the theorems are about the Coq model.",
         "technique": "Coq proof (list surgery over the placement loop, algorithm output shapes) + data obligations + correspondence + table-driven oracle",
         "design_ref": "DESIGN.md §4 C08",
     },
